@@ -424,9 +424,13 @@ class Harness:
 
                 def notify(self, event):
                     self.n += 1
-                    h.timeline.append(("sl", self.spec["name"], event.event_type.name))
+                    if self.spec["script"] != [["clock"]]:
+                        h.timeline.append(("sl", self.spec["name"], event.event_type.name))
                     for a in self.spec["script"]:
-                        if a[0] == "draw":
+                        if a[0] == "clock":
+                            # what the listener sees: the notified time and the simulator clock at that moment
+                            h.timeline.append(("sc", self.spec["name"], float(event.timestamp).hex(), float(sim.simulator_time).hex()))
+                        elif a[0] == "draw":
                             h.timeline.append(("d", self.spec["name"], h.streams[a[1]].next_float().hex()))
                         elif a[0] == "schedrel":
                             d = h._draw(a[1], "DistExponential", [1.0])
@@ -453,6 +457,18 @@ class Harness:
             else:
                 st = cls(key, "stat " + key, sim)
             self.stats[key] = st
+            if sp.get("baseline") is not None:
+                # a subscriber of the statistic's own INITIALIZED notification that registers a baseline observation right
+                # away (re-entrant call into the statistic from its own notification): it is an observation made after the reset
+                from pydsol.core.interfaces import StatEvents as _SE
+
+                class Baseline(EventListener):
+                    def __init__(self, key, vals):
+                        self.key, self.vals = key, vals
+
+                    def notify(self, event):
+                        h._observe(model, ["obs", self.key] + list(self.vals), mark="baseline")
+                st.add_listener(_SE.INITIALIZED_EVENT, Baseline(key, sp["baseline"]))
             if sp.get("watch"):
                 class Watch(EventListener):
                     def __init__(self, key, st):
@@ -475,14 +491,14 @@ class Harness:
                 val = ("raised", type(e).__name__)
         self.published.append((key, name, event.content, val, getattr(event, "timestamp", None)))
 
-    def _observe(self, model, a):
+    def _observe(self, model, a, mark=None):
         sim = model.simulator
         key = a[1]
         st = self.stats[key]
         spec = next(sp for sp in self.prog["stats"] if sp["key"] == key)
         kind = spec["kind"]
         t = sim.simulator_time
-        self.timeline.append(("o", key, num(t), a[2:]))
+        self.timeline.append(("o", key, num(t), a[2:]) if mark is None else ("o", key, num(t), a[2:], mark))
         if spec.get("via") == "event":
             payload = a[2] if kind != "wtally" else (a[2], a[3])
             self.producers[key].fire(self.etypes[key], payload)
